@@ -6,24 +6,41 @@ package git
 
 // C11: every source built from a file or a blob is restricted to safe keys;
 // Git's own configuration is not, and it is the last element of Sources().
+// Environment boundary: running `git config` / `git rev-parse` as a
+// subprocess.  Assumed (not verified): they allocate their results and write
+// no existing object of this process.
+//@ func (*Configuration).gitConfig
+//@   assumed
+//@   props C11
+//@   modifies fresh
+//@ func IsBare
+//@   assumed
+//@   props C11
+//@   modifies fresh
+
 //@ func ParseConfigLines
 //@   props C11
+//@   modifies fresh
 //@   ensures result != nil && result.OnlySafeKeys == onlySafeKeys
 
 //@ func (*Configuration).FileSource
 //@   props C11
+//@   modifies fresh
 //@   ensures result0 != nil ==> result0.OnlySafeKeys
 
 //@ func (*Configuration).RevisionSource
 //@   props C11
+//@   modifies fresh
 //@   ensures result0 != nil ==> result0.OnlySafeKeys
 
 //@ func (*Configuration).Source
 //@   props C11
+//@   modifies fresh
 //@   ensures result1 == nil ==> (result0 != nil && !result0.OnlySafeKeys)
 
 //@ func (*Configuration).Sources
 //@   props C11
+//@   modifies fresh
 //@   ensures result1 == nil ==> (len(result0) >= 1 && len(result0) <= 2)
 //@   ensures result1 == nil ==> (result0[len(result0)-1] != nil && !result0[len(result0)-1].OnlySafeKeys)
 //@   ensures result1 == nil && len(result0) == 2 ==> (result0[0] != nil && result0[0].OnlySafeKeys)
